@@ -18,9 +18,7 @@ def skip_region(syn, feats, skipped):
     """Dom_C01: regions of known findings are skipped; their witnesses are replayed separately."""
     fid = None
     if syn in ("uper", "oer") and "SET" in feats: fid = "F32"
-    elif syn == "oer" and "choice_tag_ge128" in feats: fid = "F34"
     elif syn == "oer" and "wide_int_fixed_oer" in feats: fid = "F36"
-    elif syn == "uper" and "inline_printable" in feats: fid = "F37"
     elif syn == "uper" and "named_plain_numeric" in feats: fid = "F46"
     elif syn == "uper" and "choice_alias" in feats: fid = "F38"
     elif syn == "uper" and "semi_nonzero_lb" in feats: fid = "F42"
